@@ -6,9 +6,14 @@ operator trees of the optrees grammar evaluated by `optrees.Builder` (operator +
 mode mirror).
 
 C06 spec
-  {..setup.., "eqs": [{"name", "on": "sd"|"intf", "grids": [idx..]  (order passed to set_equation),
-                       "per": {"cells":c,"faces":f,"nodes":n} (subset of keys), "tsize": t, "tree": node,
-                       "base": None | var index}, ..]          (list order = order of set_equation)
+  {..setup.., "steps": [{"op":"set", "name", "on": "sd"|"intf", "grids": [idx..]  (order passed to set_equation),
+                         "per": {"cells":c,"faces":f,"nodes":n} (subset of keys), "tsize": t, "tree": node,
+                         "base": None | var index}
+                        | {"op":"update", "name", "grids": None | [idx..], "on": kind of the given grids,
+                           "per": None | {...}, "tsize", "tree", "base"}      (update_equation; None = argument omitted)
+                        | {"op":"remove", "name"}, ..]     executed in list order; `apply_step` is the model
+               (old replay files carry "eqs": [...] = a list of "set" steps)
+   requests index the equations that are live at the end, in the order in which they were (last) set
    "requests": [{"eq": None | {"kind":"names"|"ops","list":[eq idx..]}
                            | {"kind":"dict","items":[[eq idx, "name"|"op", [grid idx..]], ..]},
                  "var": None | {"kind":"empty"} | {"kind":"names"|"md","list":[var idx..]}
@@ -24,6 +29,9 @@ C07 spec
    "rho_s": float, "rho_p": float, "amp": float, "zeros": bool,
    "coupling": [None | {"tsize": t, "tree": node} per var],
    "peq": "names"|"ops"|"dict-names"|"dict-ops", "pvar": "atomic"|"names"|"md", "vorder": int,
+   "rscale" / "cscale": [[exponent per grid of var k], ..]  rows of (equation k, grid g) are multiplied by 10^e, the
+                unknowns of (variable k, grid g) are v = u / 10^e (equations written in u, stored state divided);
+                |e| <= 3, 8 or 15; with |e| > 3 only the default inverter is used
    "inverters": ["dense"|"default", "dense"|"default"],
    "reexpand": [{"kind":"same"} | {"kind":"other","seed":int,"scale":float}, ..]  (1-3 further expansions of every
                 assembled Schur system: the same reduced solution again / scale*x_p + seeded perturbation)}
@@ -108,6 +116,48 @@ def _subset(draw, items, min_size=0):
     return list(draw(st.permutations(items)))[:k]
 
 
+def apply_step(model, step):
+    """Model of the equation bookkeeping: `model` is the list of live equations
+    ({"name","on","grids","per"}) in the order in which they were set.  set_equation appends;
+    remove_equation deletes; update_equation 'removes the existing equation and sets a new equation
+    under the same name' (docstring), i.e. the updated equation is the most recently set one, on the
+    given grids / multiplicities or, where omitted, those of the previous equation.
+    Returns the new / updated entry (None for a removal)."""
+    if step["op"] == "set":
+        e = {k: step[k] for k in ("name", "on", "grids", "per")}
+        model.append(e)
+        return e
+    i = [e["name"] for e in model].index(step["name"])
+    old = model.pop(i)
+    if step["op"] == "remove":
+        return None
+    e = {"name": old["name"],
+         "on": step["on"] if step["grids"] is not None else old["on"],
+         "grids": list(step["grids"]) if step["grids"] is not None else list(old["grids"]),
+         "per": dict(step["per"]) if step["per"] is not None else dict(old["per"])}
+    model.append(e)
+    return e
+
+
+@st.composite
+def _eq_domain(draw, sdc, ic):
+    on = "intf" if (ic and draw(st.integers(0, 2)) == 0) else "sd"
+    ng = len(sdc) if on == "sd" else len(ic)
+    empty = draw(st.sampled_from([False] * 19 + [True]))
+    grids = [] if empty else list(draw(st.permutations(list(range(ng)))))[:draw(st.sampled_from([1, 2, 2, 3, 3]))]
+    return on, grids
+
+
+@st.composite
+def _eq_body(draw, m, leaves, nvars, max_depth):
+    if m == 0:
+        return {"tsize": 0, "tree": {"k": "dense", "c": [], "size": 0}, "base": None}
+    t = m if m <= 8 else draw(st.integers(1, 6))
+    depth = draw(st.integers(0, max_depth))
+    return {"tsize": t, "tree": draw(_node(leaves, t, depth)),
+            "base": draw(st.sampled_from([None] + list(range(nvars)) * 2))}
+
+
 @st.composite
 def c06_spec(draw, max_depth=3):
     mdg_s = draw(mdg_spec(**MDG_KW))
@@ -115,24 +165,58 @@ def c06_spec(draw, max_depth=3):
     vars_ = draw(var_specs(sdc, ic))
     leaves = leaf_table(vars_, [c[0] for c in sdc], ic)
     neq = draw(st.sampled_from([1, 2, 2, 3, 3, 4]))
-    names = draw(st.permutations(EQ_NAMES))[:neq]
-    eqs = []
-    for k in range(neq):
-        on = "intf" if (ic and draw(st.integers(0, 2)) == 0) else "sd"
-        ng = len(sdc) if on == "sd" else len(ic)
-        empty = draw(st.sampled_from([False] * 19 + [True]))
-        grids = [] if empty else list(draw(st.permutations(list(range(ng)))))[:draw(st.sampled_from([1, 2, 2, 3, 3]))]
+    names = list(draw(st.permutations(EQ_NAMES)))
+    steps, model, removed = [], [], []
+
+    def new_set(name):
+        on, grids = draw(_eq_domain(sdc, ic))
         per = dict(draw(st.sampled_from(PER_SD if on == "sd" else PER_INTF)))
-        eq = {"name": names[k], "on": on, "grids": grids, "per": per}
-        m = sum(b for _, b in image_blocks(eq, sdc, ic))
-        if m == 0:
-            eq.update(tsize=0, tree={"k": "dense", "c": [], "size": 0}, base=None)
+        st_ = {"op": "set", "name": name, "on": on, "grids": grids, "per": per}
+        m = sum(b for _, b in image_blocks(st_, sdc, ic))
+        st_.update(draw(_eq_body(m, leaves, len(vars_), max_depth)))
+        return st_
+
+    for k in range(neq):
+        steps.append(new_set(names[k]))
+        apply_step(model, steps[-1])
+    unused = names[neq:]
+    # history: updates (with / without grids, with / without new multiplicities), removals, re-adding
+    nhist = draw(st.sampled_from([0, 0, 1, 1, 2, 3]))
+    for _ in range(nhist):
+        kinds = ["update", "update", "update", "remove"] if model else []
+        if removed or unused:
+            kinds.append("add")
+        if removed:
+            kinds += ["add", "add"]
+        kind = draw(st.sampled_from(kinds))
+        if kind == "add":
+            pool_ = removed * 2 + unused[:1]
+            name = draw(st.sampled_from(pool_))
+            (removed if name in removed else unused).remove(name)
+            steps.append(new_set(name))
+            apply_step(model, steps[-1])
+        elif kind == "remove":
+            name = model[draw(st.integers(0, len(model) - 1))]["name"]
+            steps.append({"op": "remove", "name": name})
+            apply_step(model, steps[-1])
+            removed.append(name)
         else:
-            t = m if m <= 8 else draw(st.integers(1, 6))
-            depth = draw(st.integers(0, max_depth))
-            eq.update(tsize=t, tree=draw(_node(leaves, t, depth)),
-                      base=draw(st.sampled_from([None] + list(range(len(vars_))) * 2)))
-        eqs.append(eq)
+            old = model[draw(st.integers(0, len(model) - 1))]
+            st_ = {"op": "update", "name": old["name"], "on": None, "grids": None, "per": None}
+            if draw(st.sampled_from([False, False, True])):
+                st_["on"], st_["grids"] = draw(_eq_domain(sdc, ic))
+            eff_on = st_["on"] if st_["grids"] is not None else old["on"]
+            pk = draw(st.sampled_from(["keep", "same", "new", "new"]))
+            if pk == "same":
+                st_["per"] = dict(old["per"])
+            elif pk == "new":
+                st_["per"] = dict(draw(st.sampled_from(PER_SD if eff_on == "sd" else PER_INTF)))
+            eff = apply_step(model, st_)
+            m = sum(b for _, b in image_blocks(eff, sdc, ic))
+            st_.update(draw(_eq_body(m, leaves, len(vars_), max_depth)))
+            steps.append(st_)
+    eqs = model
+    neq = len(eqs)
     nreq = draw(st.sampled_from([1, 2, 2, 3, 3, 4]))
     reqs = []
     for _ in range(nreq):
@@ -143,8 +227,13 @@ def c06_spec(draw, max_depth=3):
             er = {"kind": ek, "list": draw(_subset(list(range(neq))))}
         else:
             items = []
-            for k in draw(_subset(list(range(neq)), min_size=1)):
-                items.append([k, draw(st.sampled_from(["name", "op"])), draw(_subset(eqs[k]["grids"]))])
+            for k in draw(_subset(list(range(neq)), min_size=min(1, neq))):
+                gk = sorted(eqs[k]["grids"])
+                if len(gk) >= 3 and draw(st.booleans()):
+                    sub = [gk[0], gk[-1]] if draw(st.booleans()) else [gk[-1], gk[0]]  # non-contiguous row blocks
+                else:
+                    sub = draw(_subset(eqs[k]["grids"]))
+                items.append([k, draw(st.sampled_from(["name", "op"])), sub])
             er = {"kind": "dict", "items": items}
         vk = draw(st.sampled_from(["none", "names", "atomic", "atomic", "md", "empty"]))
         if vk == "none":
@@ -158,7 +247,7 @@ def c06_spec(draw, max_depth=3):
             vr = {"kind": "atomic", "list": draw(_subset(atoms, min_size=1))}
         reqs.append({"eq": er, "var": vr})
     return {"mdg": mdg_s, "vars": vars_, "pseed": draw(st.integers(0, 2**31 - 1)),
-            "explicit_state": draw(st.booleans()), "eqs": eqs, "requests": reqs}
+            "explicit_state": draw(st.booleans()), "steps": steps, "requests": reqs}
 
 
 def _mat_spec(M, fmt="csr"):
@@ -234,9 +323,15 @@ def c07_spec(draw, max_depth=3):
             if all(prim[k]) or not any(prim[k]):
                 prim[k][draw(st.integers(0, len(prim[k]) - 1))] ^= True
     whole = all(all(p) or not any(p) for p in prim)
+    smode = draw(st.sampled_from(["none", "none", "rows", "cols", "both", "both"]))
+    srange = draw(st.sampled_from([3, 8, 15, 15]))
+    expo = st.sampled_from(list(range(-srange, srange + 1)) + [e for e in (-15, -14, -13, -12, 12, 13, 14, 15) if abs(e) <= srange] * 3)
+    rscale = [[draw(expo) if smode in ("rows", "both") else 0 for _ in v["grids"]] for v in vars_]
+    cscale = [[draw(expo) if smode in ("cols", "both") else 0 for _ in v["grids"]] for v in vars_]
+    big = max(abs(e) for row in rscale + cscale for e in row) > 3
     coupling = []
     for k, v in enumerate(vars_):
-        if any(prim[k]) and draw(st.booleans()):
+        if any(prim[k]) and smode in ("none", "rows") and draw(st.booleans()):
             t = draw(st.integers(1, 5))
             coupling.append({"tsize": t, "tree": draw(_node(leaves, t, draw(st.integers(0, max_depth)), shifts=True))})
         else:
@@ -258,7 +353,8 @@ def c07_spec(draw, max_depth=3):
         "peq": draw(st.sampled_from(["names", "ops", "dict-names", "dict-ops"] if whole else ["dict-names", "dict-ops"])),
         "pvar": draw(st.sampled_from(["atomic", "names", "md"] if whole else ["atomic"])),
         "vorder": draw(st.integers(0, 10**6)),
-        "inverters": [draw(st.sampled_from(["dense", "default", "default"])) for _ in range(2)],
+        "rscale": rscale, "cscale": cscale,
+        "inverters": [draw(st.sampled_from(["default"] if big else ["dense", "default", "default"])) for _ in range(2)],
         "reexpand": [draw(st.sampled_from([{"kind": "same"}, {"kind": "other", "seed": 1, "scale": 1.0},
                                            {"kind": "other", "seed": 2, "scale": -0.5},
                                            {"kind": "other", "seed": 3, "scale": 0.0},
@@ -283,7 +379,6 @@ class SchurSystem:
 
         S = Setup(spec)
         pp = S.pp
-        B = Builder(S)
         F = pp.ad.functions
         es = S.es
         n = es.num_dofs()
@@ -309,6 +404,9 @@ class SchurSystem:
         prim_row = np.zeros(n, dtype=bool)
         prim_dof = np.zeros(n, dtype=bool)
         atom_of_dof = np.zeros(n, dtype=int)
+        rexp = spec.get("rscale") or [[0] * len(v["grids"]) for v in vars_]
+        cexp = spec.get("cscale") or [[0] * len(v["grids"]) for v in vars_]
+        rs, cs = np.ones(n), np.ones(n)  # row factor per global row, column factor per global dof
         grid_of_dof = []
         atoms = []  # (k, g, dofs, rows)
         for k in order:
@@ -330,6 +428,8 @@ class SchurSystem:
                 prim_dof[dofs] = p
                 atom_of_dof[dofs] = len(atoms)
                 atoms.append((k, g, dofs, rows, p))
+                rs[rows] = 10.0 ** int(rexp[k][si])
+                cs[dofs] = 10.0 ** int(cexp[k][si])
                 off += m
         row_of_dof = np.empty(n, dtype=int)
         row_of_dof[pair] = np.arange(n)
@@ -388,8 +488,8 @@ class SchurSystem:
                     w[np.abs(w) < 0.05] = 0.5
                     L[r, cols] = w / np.abs(w).sum() * spec["rho_p"] * rng.uniform(0.3, 1.0)
         C = np.where(L != 0, rng.uniform(-1.0, 1.0, (n, n)), 0.0)
-        rs = np.abs(C).sum(axis=1)
-        C = C / np.where(rs > 0, rs, 1.0)[:, None]
+        crs = np.abs(C).sum(axis=1)
+        C = C / np.where(crs > 0, crs, 1.0)[:, None]
         # explicit zeros of the secondary block outside its diagonal blocks
         Z = np.zeros((n, n), dtype=bool)
         if spec["zeros"] and len(blocks) >= 2:
@@ -403,8 +503,22 @@ class SchurSystem:
                         Z[r, rng.choice(cand)] = True
         self.has_stored_zeros = bool(Z.any())
 
+        # ---- scaling: the equations are written in u = cs * v (v = the unknowns porepy sees) and multiplied
+        # by rs.  The stored state is v = u / cs, so that u keeps the O(1) values Setup drew; the mirror system
+        # (A, b) is the UNSCALED one in u:  A' = diag(rs) A diag(cs), b' = rs * b, increment dv = du / cs.
+        self.rs, self.cs = rs, cs
+        self.scaled_rows, self.scaled_cols = bool(np.any(rs != 1.0)), bool(np.any(cs != 1.0))
+        if self.scaled_cols:
+            v0 = S.stored[("i", 0)] / cs
+            S.stored[("i", 0)] = v0
+            es.set_variable_values(v0, iterate_index=0)
+            if S.state is not None:
+                S.state = S.state / cs
+            self.state = S.state
+        B = Builder(S)
+        vstate = S.state if S.state is not None else S.stored[("i", 0)]
+        X = pp.ad.initAdArrays([cs * vstate])[0]
         md_cols = [es.dofs_of([S.mdvars[j]]) for j in range(nv)]
-        X = B.X
         vals, jacs, ops = {}, {}, {}
         self.finite = True
         self.kinds = set()
@@ -415,7 +529,7 @@ class SchurSystem:
             def lin(M, fmt):
                 op = None
                 for j in range(nv):
-                    Mj = M[np.ix_(rows, md_cols[j])]
+                    Mj = M[np.ix_(rows, md_cols[j])] * cs[md_cols[j]][None, :]
                     if not np.any(Mj):
                         continue
                     sp = sps.csr_matrix(Mj) if fmt == "csr" else sps.csc_matrix(Mj)
@@ -434,7 +548,7 @@ class SchurSystem:
                 op = op + pp.ad.Scalar(0.0) * zop
                 mirror = mirror + (sps.csr_matrix(Z[rows].astype(float)) @ X) * 0.0
             cpl = spec["coupling"][k]
-            if cpl is not None and np.any(prim_row[rows]):
+            if cpl is not None and np.any(prim_row[rows]) and not self.scaled_cols:
                 with np.errstate(all="ignore"):
                     mc, oc = B.visit(cpl["tree"])
                 t = cpl["tsize"]
@@ -454,6 +568,11 @@ class SchurSystem:
                     op = op + pp.ad.SparseArray(sps.csr_matrix(lift)) @ oc
                     mirror = mirror + sps.csr_matrix(lift) @ mc
                     self.kinds.add("coupling-tree")
+            if np.any(rs[rows] != 1.0):
+                if k % 2:
+                    op = pp.ad.SparseArray(sps.diags(rs[rows]).tocsr()) @ op
+                else:
+                    op = pp.ad.DenseArray(rs[rows].copy()) * op
             name = spec["names"][k]
             op.set_name(name)
             pool = S.sds if vars_[k]["on"] == "sd" else S.intfs
